@@ -437,6 +437,46 @@ func (m *machine) apply(op *Op) (sub, msg string) {
 		if want := min(op.N, len(sd.model)); n != want && !(op.N <= 0 && n <= 1) {
 			return "state/all", fmt.Sprintf("All() with a break after %d yielded %d of %d", op.N, n, len(sd.model))
 		}
+	case "all-remove":
+		// Remove policies from inside a `range ps.All()` loop, as one may with a plain map: a removed entry that has not
+		// been reached yet is never produced, no produced policy is nil, nothing is produced twice.
+		seen := map[string]bool{}
+		removed := map[string]bool{}
+		step := 0
+		for id, p := range sd.real.All() {
+			sid := string(id)
+			if p == nil {
+				return "state/all", fmt.Sprintf("All() yields a nil policy for %q", id)
+			}
+			if removed[sid] {
+				return "state/all", fmt.Sprintf("All() yields %q, which was removed earlier in the same loop before being reached", id)
+			}
+			if seen[sid] {
+				return "state/all", fmt.Sprintf("All() yields %q twice", id)
+			}
+			if sd.model[sid] == nil {
+				return "state/all", fmt.Sprintf("All() yields %q which the model does not hold", id)
+			}
+			seen[sid] = true
+			// remove up to op.N other, not yet seen ids (in sorted order, starting at a position that depends on the step)
+			ids := sortedIDs(sd.model)
+			k := 0
+			for j := 0; j < len(ids) && k < op.N; j++ {
+				cand := ids[(j+step+op.Pool)%len(ids)]
+				if !seen[cand] && !removed[cand] {
+					sd.real.Remove(cedar.PolicyID(cand))
+					removed[cand] = true
+					k++
+				}
+			}
+			step++
+		}
+		for id := range removed {
+			delete(sd.model, id)
+		}
+		if len(seen) != len(sd.model) {
+			return "state/all", fmt.Sprintf("All() with removals inside the loop produced %d policies, %d remain", len(seen), len(sd.model))
+		}
 	case "copy":
 		dst := &m.s[1-op.Set]
 		ns := cedar.NewPolicySet()
@@ -697,6 +737,9 @@ func TestHistories(t *testing.T) {
 			},
 			"allBreak": func(rt *rapid.T) {
 				run(Op{Kind: "all-break", Set: set(), N: rapid.IntRange(1, 6).Draw(rt, "n")})
+			},
+			"allRemove": func(rt *rapid.T) {
+				run(Op{Kind: "all-remove", Set: set(), N: rapid.IntRange(1, 2).Draw(rt, "n"), Pool: rapid.IntRange(0, 5).Draw(rt, "start")})
 			},
 			"copy": func(rt *rapid.T) {
 				run(Op{Kind: "copy", Set: set(), N: rapid.IntRange(0, 1).Draw(rt, "via")})
